@@ -33,6 +33,19 @@ func shiftCount(y *Term, w uint8) *Term {
 }
 
 func (in *Interp) binop(op token.Token, t types.Type, x, y Value) Value {
+	// arithmetic on opaque floats stays opaque (only metrics/logging consume it); comparisons are unsupported
+	if _, ok := x.(OpaqueFloat); ok {
+		switch op {
+		case token.ADD, token.SUB, token.MUL, token.QUO:
+			return OpaqueFloat{}
+		}
+	}
+	if _, ok := y.(OpaqueFloat); ok {
+		switch op {
+		case token.ADD, token.SUB, token.MUL, token.QUO:
+			return OpaqueFloat{}
+		}
+	}
 	switch xv := x.(type) {
 	case *Term:
 		yv, ok := y.(*Term)
